@@ -30,9 +30,10 @@ type c13State struct {
 	name  string
 	setup func(cl *verifsim.Cluster, release chan struct{})
 	// warm: establish the table's region first (the state is reached by a later request)
-	warm  bool
-	after time.Duration // how long after the call starts the client is certainly in the state
-	queue int
+	warm    bool
+	dropped bool          // ... and make the client see another table disappear (looked up again: table not found)
+	after   time.Duration // how long after the call starts the client is certainly in the state
+	queue   int
 }
 
 func TestVerifC13(t *testing.T) {
@@ -75,6 +76,15 @@ func TestVerifC13(t *testing.T) {
 			})
 		}},
 		{name: "silent-server", warm: true, after: 100 * time.Millisecond, setup: func(cl *verifsim.Cluster, release chan struct{}) {
+			cl.Rules = append(cl.Rules, func(c *verifsim.Cluster, rs *verifsim.RS, sc *verifsim.ServerConn, req *verifsim.Request, name []byte) *verifsim.Directive {
+				if rs.Addr == "rs1" && !verifsim.IsProbe(req) {
+					return &verifsim.Directive{Silent: true}
+				}
+				return nil
+			})
+		}},
+		{name: "silent-server-after-a-table-was-dropped", warm: true, dropped: true, after: 100 * time.Millisecond, setup: func(cl *verifsim.Cluster, release chan struct{}) {
+			// (the client has seen a table disappear before: a region it knew was looked up again and is gone)
 			cl.Rules = append(cl.Rules, func(c *verifsim.Cluster, rs *verifsim.RS, sc *verifsim.ServerConn, req *verifsim.Request, name []byte) *verifsim.Directive {
 				if rs.Addr == "rs1" && !verifsim.IsProbe(req) {
 					return &verifsim.Directive{Silent: true}
@@ -134,6 +144,17 @@ func TestVerifC13(t *testing.T) {
 					if st.warm {
 						g, _ := hrpc.NewGet(context.Background(), []byte("t"), []byte("warm"))
 						c.Get(g)
+						synctest.Wait()
+					}
+					if st.dropped {
+						cl.CreateTable("gone", nil, []string{"rs1"})
+						dctx, dcancel := context.WithTimeout(context.Background(), time.Minute)
+						g, _ := hrpc.NewGet(dctx, []byte("gone"), []byte("k"))
+						c.Get(g)
+						cl.DropTable("gone")
+						g2, _ := hrpc.NewGet(dctx, []byte("gone"), []byte("k"))
+						c.Get(g2) // not serving, looked up again, table not found
+						dcancel()
 						synctest.Wait()
 					}
 					var ctx context.Context
